@@ -229,14 +229,13 @@ def norm_package(run, twin=None):
     def body():
         assume(k >= 0)
 
-        class Self(object):
-            _norm_cache = Cache()
+        import supp.project as Pj
         holder.clear()
         pkg = RelName(k, has_rest)
         assume(pkg.restlen >= 0)
         assume(has_rest == (pkg.restlen > 0))
         holder['pkg'] = pkg
-        return f(Self(), pkg, PathP(z3.IntVal(0)))
+        return f(real_project(Pj, _norm_cache=Cache()), pkg, PathP(z3.IntVal(0)))
 
     def on_path(p, out):
         pkg = holder['pkg']
@@ -292,7 +291,20 @@ def norm_package(run, twin=None):
 # ---------------------------------------------------------------------------
 # get_module over an abstract file system
 
-Exists = z3.Function('candidate_exists', Int, Int, z3.BoolSort())     # (root index, candidate index)
+_EXISTS = [z3.Function('candidate_exists', Int, Int, z3.BoolSort())]     # (root index, candidate index); swapped per epoch by the history harness
+
+
+def Exists(r, c):
+    return _EXISTS[0](r, c)
+
+
+def real_project(Pj, **attrs):
+    """`self` for a method under contract: a REAL Project built by the real __init__ (so every attribute the class gives its instances
+    exists, whatever a later version adds), with the modelled attributes replaced by their stand-ins"""
+    s = Pj.Project(['/nonexistent'])
+    for k, v in attrs.items():
+        setattr(s, k, v)
+    return s
 ParentAt = z3.Function('root_holds_the_parent_package_or_module', Int, z3.BoolSort())
 
 
@@ -443,6 +455,22 @@ def get_module(run, twin=None):
         def __getitem__(self, k):
             return ('sys.modules', k)
 
+        def get(self, k, default=None):
+            # a loaded module knows a file of its own: some path that is NOT one of the candidates of the search below
+            if core.CUR.branch(self.b):
+                return type('LoadedModule', (), {'__file__': LoadedFile(), '__name__': k})()
+            return default
+
+    class LoadedFile(Proxy):
+        """__file__ of an already loaded module: an arbitrary path"""
+        _pyclass = str
+
+        def __bool__(self):
+            return True
+
+        def endswith(self, suf):
+            return core.CUR.branch(z3.Bool('loaded_module_file_is_source'))
+
     class SysStub(object):
         modules = SymIn(loaded)
         path = []
@@ -466,14 +494,7 @@ def get_module(run, twin=None):
         axiom(z3.ForAll([r, c1], z3.Implies(z3.And(Exists(r, c1), c1 >= 0, c1 < NC), ParentAt(r))))
         name = Name('pkg.mod')
 
-        class Self(object):
-            _context_cache = {}
-            _module_cache = {}
-            dyn_modules = SymIn(dyn)
-
-            def get_path(self):
-                return roots
-        s = Self()
+        s = real_project(Pj, _context_cache={}, _module_cache={}, dyn_modules=SymIn(dyn), get_path=lambda: roots)
         holder.update(s=s, name=name)
         del imported[:]
         return f(s, name)
@@ -529,14 +550,7 @@ def get_module(run, twin=None):
             m = M()
             m.changed = changed
 
-            class Self(object):
-                _context_cache = {}
-                _module_cache = {'n': m}
-                dyn_modules = set()
-
-                def get_path(self):
-                    return []
-            s = Self()
+            s = real_project(Pj, _context_cache={}, _module_cache={'n': m}, dyn_modules=set(), get_path=lambda: [])
             fr = loader.load('supp.project', 'Project.get_module', stubs={'sys': type('S', (), {'modules': {}, 'path': []})})
             try:
                 r = fr(s, 'n')
@@ -550,11 +564,8 @@ def get_module(run, twin=None):
         run.case = 'context-cache'
         sentinel = object()
 
-        class Self2(object):
-            _context_cache = {'n': sentinel}
-            _module_cache = {}
         fr = loader.load('supp.project', 'Project.get_module')
-        prove('per-request-cache-first', fr(Self2(), 'n') is sentinel, clause='within one change-checking context a module is looked up once', path=path)
+        prove('per-request-cache-first', fr(real_project(Pj, _context_cache={'n': sentinel}, _module_cache={}), 'n') is sentinel, clause='within one change-checking context a module is looked up once', path=path)
         run.case = None
     core.explore(lambda: None, lambda p, out: cache_paths(p))
 
@@ -595,6 +606,137 @@ finally:
 '''
 
 
+HISTORY_REPLAY = '''import sys, os, tempfile, shutil; sys.path.insert(0, %(repo)r)
+from supp.project import Project
+d = tempfile.mkdtemp(prefix='supp-c09-')
+try:
+    p = Project([d])
+    def ask(proj, name):
+        with proj.check_changes():
+            try: return proj.get_module(name).filename
+            except ImportError: return 'ImportError'
+    a1 = ask(p, 'late_mod')
+    open(os.path.join(d, 'late_mod.py'), 'w').write('x = 1\\n')
+    a2, fresh = ask(p, 'late_mod'), ask(Project([d]), 'late_mod')
+    print('first request', a1, '| after creating the file: long-lived', a2, '| fresh', fresh)
+    print('REPRODUCED' if a2 != fresh else 'not reproduced')
+finally:
+    shutil.rmtree(d, ignore_errors=True)
+'''
+
+
+@harness(['C09'], 'supp.project.Project.get_module[two requests, the file system changes in between]',
+         twins=('spec-second-answer-from-the-first-state',))
+def get_module_history(run, twin=None):
+    """history of length two on one REAL Project object (built by the real __init__, so whatever state a version keeps between requests is
+    there): request the name under an arbitrary file system, let the file system change arbitrarily within the property's domain (files are
+    created and rewritten, nothing is deleted, nothing shadows an already resolved module from an earlier root), request again inside a new
+    check_changes() context.  The second answer must be the one a fresh project gives on the second file system: ImportError iff it holds no
+    candidate; a module object is served again only if its file is unchanged; otherwise the first candidate of the second file system."""
+    import supp.project as Pj
+    run.trust(T_FS)
+    run.concretise = lambda model, ob: {'input': 'history: request a missing module; create its file; request again', 'script': HISTORY_REPLAY % {'repo': core.REPO}}
+    SUF = list(Pj.SUFFIXES)
+    NC = len(SUF) + 1
+    roots = RootList()
+    E0 = _EXISTS[0]
+    E1 = z3.Function('candidate_exists_at_request_1', Int, Int, z3.BoolSort())
+    E2 = z3.Function('candidate_exists_at_request_2', Int, Int, z3.BoolSort())
+    rewritten = z3.Bool('file_of_the_cached_module_rewritten')
+    holder = {}
+
+    def none_before(k, E=None):
+        r, c = z3.Int('ir'), z3.Int('ic')
+        E = E if E is not None else _EXISTS[0]
+        return z3.ForAll([r, c], z3.Implies(z3.And(r >= 0, r < k, c >= 0, c < NC), z3.Not(E(r, c))))
+
+    def inv(L, st):
+        return z3.And(z3.BoolVal(st['filename'] is None), none_before(L.k))
+
+    def hav(L, st):
+        return {'filename': None, 'is_source': False}
+
+    class Src(object):
+        """SourceModule stand-in: remembers the file it was built from; whether that file was rewritten since is symbolic"""
+        def __init__(self, proj, n, fn):
+            self.fn = fn
+
+        @property
+        def changed(self):
+            return core.CUR.branch(rewritten)
+
+    class Imp(object):
+        """ImportedModule stand-in (a runtime module never counts as changed)"""
+        changed = False
+
+        def __init__(self, m):
+            self.m = m
+
+    class NotLoaded(object):
+        modules = {}
+        path = []
+
+    imported = []
+    f = loader.load('supp.project', 'Project.get_module',
+                    stubs={'os': fs_stub(SUF), 'sys': NotLoaded, 'ImportedModule': Imp, 'SourceModule': Src},
+                    cuts={0: LoopSpec(inv, hav, temps=('p', 'mpath', 's', 'fname'))},
+                    builtins_extra={'__import__': lambda n, *a: (imported.append(n), NotLoaded.modules.__setitem__(n, ('runtime', n)))})
+
+    def ask(s, name):
+        with s.check_changes():
+            try:
+                return f(s, name)
+            except ImportError:
+                return None
+
+    def body():
+        assume(roots.n >= 0)
+        NotLoaded.modules.clear()
+        name = 'mod'
+        s = real_project(Pj, get_path=lambda: roots, dyn_modules=set())
+        try:
+            r, c1, c2 = z3.Int('ur'), z3.Int('uc1'), z3.Int('uc2')
+            for E in (E1, E2):
+                axiom(z3.ForAll([r, c1, c2], z3.Implies(z3.And(E(r, c1), E(r, c2), c1 >= 0, c1 < NC, c2 >= 0, c2 < NC), c1 == c2)))
+            _EXISTS[0] = E1
+            r1 = ask(s, name)
+            # the file system changes: nothing is deleted ...
+            axiom(z3.ForAll([r, c1], z3.Implies(z3.And(r >= 0, c1 >= 0, c1 < NC, E1(r, c1)), E2(r, c1))))
+            # ... and nothing shadows the module resolved by the first request
+            if isinstance(r1, Src):
+                axiom(none_before(r1.fn.r, E2))
+            _EXISTS[0] = E2
+            NotLoaded.modules.clear()
+            r2 = ask(s, name)
+        finally:
+            _EXISTS[0] = E0
+        return r1, r2
+
+    def on_path(p, out):
+        if out[0] != 'ok':
+            prove('no-exception(%s)' % type(out[1]).__name__, False, clause='[%r]' % (out[1],), path=p)
+            return
+        r1, r2 = out[1]
+        nothing2 = none_before(roots.n, E2 if not twin else E1)
+        if r2 is None:
+            prove('second-request:importerror-only-if-the-second-file-system-holds-no-candidate', nothing2,
+                  clause='a fresh project raises ImportError iff no root holds a candidate NOW: a name that was missing before and exists now is found', path=p)
+        elif isinstance(r2, Src):
+            if r2 is r1:
+                prove('second-request:same-module-object-only-if-its-file-is-unchanged', z3.Not(rewritten),
+                      clause='a module object survives a request boundary only if its file was not rewritten', path=p)
+            else:
+                fn = r2.fn
+                ok = isinstance(fn, CandP) and fn.kind is not None
+                ci = (SUF.index(fn.kind[1]) if fn.kind[0] == 'suffix' else len(SUF)) if ok else 0
+                prove('second-request:first-candidate-of-the-second-file-system',
+                      z3.And(E2(fn.r, z3.IntVal(ci)), fn.r >= 0, fn.r < roots.n, none_before(fn.r, E2)) if ok else False,
+                      clause='the module analysed is the one a fresh project finds on the current file system', path=p)
+        else:
+            prove('second-request:runtime-module-only-if-a-candidate-exists', z3.Not(nothing2), path=p)
+    core.explore(body, on_path)
+
+
 @harness(['C09'], 'supp.project.Project.get_module[Inv_cache] / check_changes / SourceModule.changed', twins=('spec-never-serve-from-the-cache',))
 def cache_invariant(run, twin=None):
     """Inv_cache: every module served inside a change-checking context is valid.  The abstract module store holds a module `a` whose analysis
@@ -624,14 +766,7 @@ def cache_invariant(run, twin=None):
     def body():
         a, b = Mod('a', ch_a), Mod('b', ch_b)
 
-        class Self(object):
-            _context_cache = {}
-            _module_cache = {'a': a, 'b': b}
-            dyn_modules = set()
-
-            def get_path(self):
-                return []
-        holder.update(a=a, s=Self())
+        holder.update(a=a, s=real_project(Pj, _context_cache={}, _module_cache={'a': a, 'b': b}, dyn_modules=set(), get_path=lambda: []))
         try:
             return f(holder['s'], 'a')
         except ImportError:
@@ -861,6 +996,25 @@ def resolution_small_trees(run):
                 else:
                     ok = got == want
                 prove('roots-%s' % '-'.join(combo), ok, clause='file analysed == file importlib loads [%r vs %r]' % (got, want), path=path)
+            # a project file named like a module that is already loaded from elsewhere (a stdlib module): the roots still come first
+            import json as _json, string as _string, sys as _sys2      # noqa: loaded on purpose
+            for kind in ('module', 'package'):
+                base = os.path.join(top, 'shadow-%s' % kind)
+                r0 = os.path.join(base, 'r0')
+                os.makedirs(r0)
+                nm = 'json' if kind == 'module' else 'string'
+                if kind == 'module':
+                    open(os.path.join(r0, nm + '.py'), 'w').close()
+                else:
+                    os.makedirs(os.path.join(r0, nm))
+                    open(os.path.join(r0, nm, '__init__.py'), 'w').close()
+                spec = importlib.machinery.PathFinder.find_spec(nm, [r0] + _sys2.path)
+                try:
+                    got = getattr(Project([r0]).get_module(nm), 'filename', None)
+                except ImportError:
+                    got = None
+                prove('loaded-stdlib-name-shadowed-by-a-project-%s' % kind, got == spec.origin,
+                      clause='file analysed == file importlib loads from roots + sys.path [%r vs %r]' % (got, spec.origin), path=path)
             # relative names
             for marks in itertools.product((False, True), repeat=3):
                 base = os.path.join(top, 'rel%d' % n)
